@@ -99,6 +99,42 @@ def run(repo, rep, tier):
                   "the non-strict handler defers)",
                   construct="expression-layer-raises:" + cq.split(".")[-1],
                   where=L.where(fn_, ln_))
+    # ... and a lookup in a table keyed by user-chosen text (expression type
+    # prefixes, the template's default type) is one of them: every read of
+    # the factory table sits under a handler that turns the KeyError into
+    # such an error (a bare KeyError is neither reported with a location in
+    # strict mode nor deferred otherwise)
+    pc = repo.func("chameleon.tales.ExpressionParser.__call__")
+    reads = [n_ for n_ in ast.walk(pc.node)
+             if isinstance(n_, ast.Subscript) and isinstance(n_.ctx, ast.Load)
+             and src(n_.value) == "self.factories"]
+    if not reads:
+        raise AnalysisError("ExpressionParser.__call__: no read of the "
+                            "factory table")
+    for n_ in reads:
+        ok_ = False
+        a_, prev_ = getattr(n_, "_parent", None), n_
+        while a_ is not None and a_ is not pc.node:
+            if isinstance(a_, ast.Try) and any(
+                    prev_ is b_ for b_ in a_.body):
+                for h_ in a_.handlers:
+                    if h_.type is not None and any(
+                            src(t_) in ("KeyError", "LookupError")
+                            for t_ in (h_.type.elts if isinstance(
+                                h_.type, ast.Tuple) else [h_.type])):
+                        for r_ in ast.walk(h_):
+                            if isinstance(r_, ast.Raise) and isinstance(
+                                    r_.exc, ast.Call):
+                                c_ = repo.resolve_attr(pc.module,
+                                                       r_.exc.func)
+                                if c_ and c_[0] == "class" and ee.qualname \
+                                        in L.class_closure(repo, c_[1])[0]:
+                                    ok_ = True
+            prev_, a_ = a_, getattr(a_, "_parent", None)
+        rep.check(ok_, "R19.2", pc.qualname, "an expression type that is "
+                  "not registered (prefix or default type) is reported as "
+                  "an ExpressionError", construct="factory-lookup-guarded",
+                  where=L.where(pc, n_.lineno), detail=src(n_))
     L.state_rule(repo, rep)
 
 
